@@ -419,19 +419,7 @@ func (z *zoo) reactAgentD(ctx context.Context, r *lib.Rng, shape *[]string) (*re
 		}
 	}
 	if customChecker {
-		cfg.StreamToolCallChecker = func(ctx context.Context, sr *schema.StreamReader[*schema.Message]) (bool, error) {
-			defer sr.Close()
-			cs, err := drain(sr)
-			if err != nil {
-				return false, err
-			}
-			for _, c := range cs {
-				if len(c.ToolCalls) > 0 {
-					return true, nil
-				}
-			}
-			return false, nil
-		}
+		cfg.StreamToolCallChecker = ctxChecker("react")
 	}
 	*shape = append(*shape, fmt.Sprintf("rd:%v", rd), fmt.Sprintf("modifier:%v", modifier), fmt.Sprintf("checker:%v", customChecker), fmt.Sprintf("maxstep:%d", maxStep))
 	ag, err := react.NewAgent(ctx, cfg)
@@ -622,6 +610,28 @@ var hostScripts = []string{
 	"call:smodel(a)+slambda(b)",              // two tool calls: the specialists branch rejects it
 }
 
+// ctxChecker is a StreamToolCallChecker that, like any user function, works with the context
+// it is given: it must be the context of the run it checks for (the recorder of the call, the
+// callback manager, deadlines and values of the caller), and what it reads must be that run's.
+func ctxChecker(who string) func(ctx context.Context, sr *schema.StreamReader[*schema.Message]) (bool, error) {
+	return func(ctx context.Context, sr *schema.StreamReader[*schema.Message]) (bool, error) {
+		defer sr.Close()
+		ev(ctx, "ctx:checker:"+who)
+		cs, err := drain(sr)
+		if err != nil {
+			return false, err
+		}
+		found := false
+		for _, c := range cs {
+			see(ctx, "tool call checker of "+who, renderMsg(c))
+			if len(c.ToolCalls) > 0 {
+				found = true
+			}
+		}
+		return found, nil
+	}
+}
+
 func buildHost(r *lib.Rng, z *zoo) (*object, error) {
 	ctx := context.Background()
 	var shape []string
@@ -665,11 +675,15 @@ func buildHost(r *lib.Rng, z *zoo) (*object, error) {
 	if withPrompt {
 		cfg.Host.SystemPrompt = "route"
 	}
+	hostChecker := z.flag("hostchecker", r.Chance(1, 2))
+	if hostChecker {
+		cfg.StreamToolCallChecker = ctxChecker("host")
+	}
 	ma, err := host.NewMultiAgent(ctx, cfg)
 	if err != nil {
 		return nil, err
 	}
-	shape = append(shape, fmt.Sprintf("prompt:%v", withPrompt))
+	shape = append(shape, fmt.Sprintf("prompt:%v", withPrompt), fmt.Sprintf("hostchecker:%v", hostChecker))
 	sharedA := sharedAgentOpts()
 	// flow/agent/multiagent/host/compose.go:43-125
 	d := &dGraph{agentSt: true}
